@@ -506,7 +506,7 @@ func c12(c *Ctx) {
 				r.Check(w1 == nil, "R3.store-writes", key+" majority", pos, "only under participation*3 >= 512*2", "a committee can change without two-thirds participation: "+p.PathString(w1))
 				if w.field == "CurrentSyncCommittee" {
 					r.Check(isStoreField(w.st.Val, "NextSyncCommittee"), "R3.store-writes", key+" rotation-value", pos, "the current committee becomes the stored next committee", "the current committee is replaced by something other than the stored next committee")
-					rot := any(func(f core.Fact) bool {
+					rotFact := func(f core.Fact) bool {
 						if f.Op != token.EQL {
 							return false
 						}
@@ -520,8 +520,55 @@ func c12(c *Ctx) {
 							}
 						}
 						return false
-					})
+					}
+					rot := any(rotFact)
 					w2 := core.InstrGuardedPS(w.st, rot, nil)
+					// rotation-whenever: the branch conditions that decide the rotation, beyond those that also decide the
+					// finalized-header write, are only 'a next committee is stored' and 'finalized period == store period + 1'
+					// (an update that advances the period without rotating leaves the store verifying with the wrong committee)
+					var finBlocks []*ssa.BasicBlock
+					for _, o := range storeFieldWrites(fn) {
+						if o.field == "FinalizedHeader" {
+							finBlocks = append(finBlocks, o.st.Block())
+						}
+					}
+					isNil := func(v ssa.Value) bool { k, ok := v.(*ssa.Const); return ok && k.IsNil() }
+					var extra []string
+					for d := w.st.Block().Idom(); d != nil; d = d.Idom() {
+						ifi, isIf := d.Instrs[len(d.Instrs)-1].(*ssa.If)
+						if !isIf {
+							continue
+						}
+						ctl := func(t *ssa.BasicBlock) bool {
+							for _, sc := range d.Succs {
+								if len(sc.Preds) == 1 && sc.Dominates(t) {
+									return true
+								}
+							}
+							return false
+						}
+						if !ctl(w.st.Block()) {
+							continue
+						}
+						allowed := false
+						if bo, isB := ifi.Cond.(*ssa.BinOp); isB && (bo.Op == token.EQL || bo.Op == token.NEQ) {
+							if (isNil(bo.X) && isStoreField(bo.Y, "NextSyncCommittee")) || (isNil(bo.Y) && isStoreField(bo.X, "NextSyncCommittee")) {
+								allowed = true
+							}
+							if rotFact(core.Fact{Op: token.EQL, X: bo.X, Y: bo.Y}) {
+								allowed = true
+							}
+						}
+						for _, fb := range finBlocks {
+							if ctl(fb) {
+								allowed = true
+							}
+						}
+						if !allowed {
+							extra = append(extra, p.Pos(ifi.Cond.Pos()))
+						}
+					}
+					r.Check(len(extra) == 0, "R3.store-writes", key+" rotation-whenever", pos, "the rotation depends only on a stored next committee and on the finalized period being store period + 1", "the rotation also depends on another condition ("+strings.Join(extra, ", ")+"): an update can move the store into the next period without rotating the committees, after which signatures are checked against the wrong period's committee")
 					r.Check(w2 == nil, "R3.store-writes", key+" rotation-period", pos, "rotation only when the finalized period is store period + 1", "the committees can rotate without the finalized header entering the next period: "+p.PathString(w2))
 				} else {
 					r.Check(isUpdateField(w.st.Val, "NextSyncCommittee"), "R3.store-writes", key+" value", pos, "assigned the update's next committee", "the next committee is assigned something other than the update's")
